@@ -164,6 +164,11 @@ def gen_c19_random(rnd, tier):
                     pts[2] = list(pts[0])
             rec['pts'] = pts
             rec['deg'] = not any(_cross(_sub(pts[1], pts[0]), _sub(pts[2], pts[0])))
+            if rnd.random() < 0.5:
+                # a small triangle far from the origin (six to eight digits between position and size)
+                # (offsets above 2^26 that are not powers of two: products of two coordinates no longer fit 53 bits)
+                rec['off'] = [rnd.choice(((1 << 27) + 12345, -(1 << 28) - 777, 1 << 20)), rnd.choice(((1 << 28) + 4321, -(1 << 27) + 99, 3000)),
+                              rnd.choice((-(1 << 27) - 31337, (1 << 29) - 1001, 1 << 24))]
         else:
             rec['p'] = [rnd.randint(0, 6) for _ in range(3)]
             rec['nv'] = _rvec(rnd, 9)
